@@ -320,7 +320,82 @@ func addNearDuplicates(t *rapid.T, w *World) {
 		refs := w.selectorPeers()
 		var src Peer
 		var srcNs string
-		kind := rapid.IntRange(0, 5).Draw(t, l+"kind")
+		kind := rapid.IntRange(0, 7).Draw(t, l+"kind")
+		if kind == 6 && len(w.Workloads) > 0 && len(w.NPs) > 0 {
+			// a rule derived from an EXISTING workload: its label equalities are satisfied by a real pod, but one of the two
+			// selectors also carries a non-equality requirement - such a rule is not exempt from reporting
+			x := w.Workloads[rapid.IntRange(0, len(w.Workloads)-1).Draw(t, l+"xw")]
+			podSel := &Selector{MatchLabels: map[string]string{}}
+			for _, k := range sortedKeysS(x.Labels) {
+				if rapid.Bool().Draw(t, l+"pl"+k) {
+					podSel.MatchLabels[k] = x.Labels[k]
+				}
+			}
+			nsl := w.nsLabels(x.Ns)
+			nsSel := &Selector{MatchLabels: map[string]string{}}
+			for _, k := range sortedKeysS(nsl) {
+				if rapid.Bool().Draw(t, l+"nl"+k) {
+					nsSel.MatchLabels[k] = nsl[k]
+				}
+			}
+			extra := Expr{Key: rapid.SampledFrom(labelKeys).Draw(t, l+"xk"), Op: rapid.SampledFrom([]string{"NotIn", "Exists", "DoesNotExist", "In"}).Draw(t, l+"xop")}
+			if extra.Op == "NotIn" || extra.Op == "In" {
+				extra.Values = []string{rapid.SampledFrom(labelVals).Draw(t, l+"xv"), "fresh1"}
+			}
+			if rapid.Bool().Draw(t, l+"xonns") {
+				nsSel.Exprs = append(nsSel.Exprs, extra)
+			} else {
+				podSel.Exprs = append(podSel.Exprs, extra)
+			}
+			pe := Peer{PodSel: podSel, NsSel: nsSel}
+			if len(podSel.MatchLabels) == 0 && len(podSel.Exprs) == 0 && rapid.Bool().Draw(t, l+"nilpod") {
+				pe.PodSel = nil
+			}
+			r := Rule{Peers: []Peer{pe}, Ports: []PPort{{PortNum: rapid.SampledFrom([]int{8080, 80, 443}).Draw(t, l+"xport")}}}
+			pi := rapid.IntRange(0, len(w.NPs)-1).Draw(t, l+"xpol")
+			if rapid.Bool().Draw(t, l+"xdir") {
+				w.NPs[pi].Ingress = append(w.NPs[pi].Ingress, r)
+			} else {
+				w.NPs[pi].Egress = append(w.NPs[pi].Egress, r)
+			}
+			continue
+		}
+		if kind == 7 && len(w.NPs) > 0 {
+			// two policies of one namespace, both open to the entire cluster in one direction on different ports of one
+			// protocol; the first selects every pod, the second a subset (shared state between policies shows up here)
+			pi := rapid.IntRange(0, len(w.NPs)-1).Draw(t, l+"epol")
+			ns := w.NPs[pi].Ns
+			ing := rapid.Bool().Draw(t, l+"edir")
+			mk := func(name string, sel Selector, port int) NetPol {
+				r := Rule{Ports: []PPort{{PortNum: port}}}
+				if rapid.Bool().Draw(t, l+name+"viaNs") {
+					r.Peers = []Peer{{NsSel: &Selector{}}}
+				}
+				p := NetPol{Ns: ns, Name: name + fmt.Sprint(d)}
+				p.PodSel = sel
+				if ing {
+					p.PolicyTypes = []string{"Ingress"}
+					p.Ingress = []Rule{r}
+				} else {
+					p.PolicyTypes = []string{"Egress"}
+					p.Egress = []Rule{r}
+				}
+				return p
+			}
+			narrow := Selector{}
+			for _, x := range w.Workloads {
+				if x.Ns == ns && len(x.Labels) > 0 {
+					k := sortedKeysS(x.Labels)[0]
+					narrow = Selector{MatchLabels: map[string]string{k: x.Labels[k]}}
+					break
+				}
+			}
+			w.NPs = append(w.NPs, mk("broad", Selector{}, 8080), mk("narrow", narrow, 9090))
+			continue
+		}
+		if kind >= 6 {
+			kind = rapid.IntRange(0, 5).Draw(t, l+"kind2")
+		}
 		if len(refs) == 0 || kind == 5 {
 			// seed a concatenation-neighbour pair from scratch (keys a, b, ab; value c)
 			if len(w.NPs) == 0 {
@@ -467,6 +542,9 @@ func addNearDuplicates(t *rapid.T, w *World) {
 // GenExposureWorld draws an NP-only world biased for exposure analysis (DESIGN C06/C07).
 func GenExposureWorld(t *rapid.T) *World {
 	w := GenWorld(t, GenCfg{NoNamedRisk: true, Exposureish: true, MaxWl: 4, MaxNP: 4})
+	if len(w.NPs) == 0 && rapid.Bool().Draw(t, "seednp") {
+		w.NPs = append(w.NPs, NetPol{Ns: w.Namespaces[0].Name, Name: "np-seed", PolicyTypes: []string{"Ingress", "Egress"}})
+	}
 	addNearDuplicates(t, w)
 	return w
 }
